@@ -85,6 +85,11 @@ CHECKS = {
     text="TLC checks for every chain of partition-wise / other / partition-selecting operators, cut point and cut kind that continuing on the import node yields the same partition contents, keeps divisions unless the cut kind documents their loss, and that an import node absorbing different selections has different names only if its name covers the selection. Every proper sub-collection of TLC-generated programs is cut with six kinds of round trip and the rest of the program runs on the re-imported collection; TLC validates the final result (order / labels where defined), declared schema, divisions and the graph invariants of the cut plan against the uncut query, and partition selections on the imported node against the head's own partitions.",
     note="Trusted: TLC; persist on the synchronous scheduler; installed dask's legacy dataframe. Scalars are not cut (no to_delayed).",
     design="5.6 C17"),
+ "C16": dict(
+    technique="TLA+ model of process-wide planner state (Session.tla: bounded LRU caches, a fresh process starts empty) model-checked by TLC; TLC-generated programs pickled as built / optimized / lowered (+ persisted-and-used) and loaded in fresh interpreters with another PYTHONHASHSEED; SessionTrace validated by TLC",
+    text="TLC checks on Session.tla that a plan whose value lives only in a bounded process-wide cache is NOT transparent (Faithful=TRUE must violate Transparent: the model reproduces the documented defect), while recompute-on-miss with a complete key is. TLC-generated relational programs (every program ending in or one operator above set_index / sort_values included) are pickled in three forms, loaded in fresh interpreters (optimized forms first, nothing warms a cache) and name, declared schema, npartitions, divisions, result (order / labels where defined) and partition lengths are validated by TLC against the originating process.",
+    note="Trusted: TLC; cloudpickle; subprocess interpreters of /venv. Partition lengths compared only where the program defines the row order.",
+    design="5.7 C16"),
 }
 
 def main():
